@@ -81,13 +81,13 @@ def obligations(tier, seed):
     nmax = 4 if q else 6
     for pred in ('tup3', 'str2', 'div3'):
         for n in range(0, nmax + 1):
-            obs.append(Ob(PROP, 'runs', dict(ctx='root', pred=pred, inner='to_list', n=n), budget=120 if q else 600,
+            obs.append(Ob(PROP, 'runs', dict(ctx='root', pred=pred, inner='to_list', n=n), budget=300 if q else 900,
                           bound=dict(items=n, values='any int', pred=pred)))
     for ctx in ('group', 'roll22', 'roll31', 'split', 'split_in'):
         for n in ((2, 3, 4) if q else (2, 3, 4, 5)):
-            obs.append(Ob(PROP, 'runs', dict(ctx=ctx, pred='tup3', inner='to_list', n=n), budget=150 if q else 900,
+            obs.append(Ob(PROP, 'runs', dict(ctx=ctx, pred='tup3', inner='to_list', n=n), budget=400 if q else 1200,
                           bound=dict(items=n, values='any int', ctx=ctx)))
     for inner in ('count_last', 'scan'):
-        obs.append(Ob(PROP, 'runs', dict(ctx='root', pred='tup3', inner=inner, n=3 if q else 5), budget=120 if q else 600, bound=dict(items=3 if q else 5)))
+        obs.append(Ob(PROP, 'runs', dict(ctx='root', pred='tup3', inner=inner, n=3 if q else 5), budget=300 if q else 900, bound=dict(items=3 if q else 5)))
     obs.append(Ob(PROP, 'runs', dict(ctx='root', pred='tup3', inner='to_list', n=3, _twin='reach'), budget=60, expect='refute'))
     return obs
